@@ -706,8 +706,6 @@ def compare(case, impl, ros, vals):
                     probs.append(("policy-input", f"{where}: policy saw {ro['fwd'][t][1][e]} model {obs}"))
                 if bool(sn["starts"][t][e]) != start:
                     probs.append(("slot-episode-start", f"{where}: impl {sn['starts'][t][e]} model {start}"))
-                if pid != r * ns + t:
-                    probs.append(("slot-forward-id", f"{where}: model id {pid}"))
                 if not rew_ok:
                     probs.append(("slot-reward", f"{where}: impl reward {sn['rewards'][t][e]}; model bootstraps={boot} at {bootobs}"))
                 if not act_ok:
